@@ -23,6 +23,7 @@
 #include <etl/_iterator/rbegin.hpp>
 #include <etl/_iterator/rend.hpp>
 #include <etl/_iterator/size.hpp>
+#include <etl/_memory/addressof.hpp>
 #include <etl/_new/operator.hpp>
 #include <etl/_type_traits/aligned_storage.hpp>
 #include <etl/_type_traits/conditional.hpp>
@@ -560,6 +561,9 @@ public:
             -> static_vector& requires(is_assignable_v<reference, const_reference>) {
                 // Nothing to assert: size of other cannot exceed capacity because both
                 // vectors have the same type
+                if (this == etl::addressof(other)) {
+                    return *this;
+                }
                 clear();
                 insert(begin(), other.begin(), other.end());
                 return *this;
